@@ -92,6 +92,8 @@ func fixedMIDs() []midCase {
 	}
 	// targets below directories that do not exist (yet): a helper that "creates the missing folder" first
 	add("newdir", "../../N0NEW/in/x", "../../../spool/cron/x", "../newdir/x", "/abs/newdir/x", "../../Q/x", "../Q/x", "../../../../../../new/dir/deep/x", "newdir/x", "in/newdir/x", "../../mbox2/newdir/x")
+	// identifiers made of file-name pattern characters (a helper that globs instead of opening)
+	add("glob", "*", "?", "VALIDIN0000?", "[A-Z]*", "../*", "../../*/in/*", "../../deco?", "{a,b}", "../../[d]ecoy", "*/../../x")
 	add("crlf", "x\r\nX-Evil: 1", "../../x\n", "../../x\r", "x\ny", "\r\n")
 	add("valid", "VALID0000002", "x", "AAAAAAAAAAA1", "abc123", "Z")
 	return l
